@@ -1,64 +1,95 @@
 #!/usr/bin/env python3
-"""Confirm a seeded change and run the property's check against it.
+"""Confirm a seeded change and run the property's check against it, in scratch copies.
 
-  tools/evalseed.py <dir with patch.diff, demo_test.go, meta.json> [--tier quick|thorough] [--props C01,C19]
+  tools/evalseed.py <patch.diff> <demo_test.go> <property> <slot> [--tier quick|thorough] [--props C01,C19] [--skip-confirm]
 
-Steps (all in /repo, undone afterwards): demo passes on the clean tree; patch applies; existing suite
-passes with the patch; demo fails with the patch; ./check <prop> reports VIOLATION. Prints a JSON summary.
+Nothing is done in /repo or /verif themselves: <slot> names a scratch pair
+  /tmp/vrepo-<slot>   git worktree of /repo's HEAD (created and removed here)
+  /tmp/veval-<slot>   copy of /verif as committed plus its build output (created on first use, kept for re-use)
+The patch is applied to the scratch worktree and the checks run with VERIF_REPO pointing at it — the same
+commands MANIFEST.json registers, only against the patched copy, so several seeds can be evaluated in parallel
+without disturbing /verif/lean/.lake.
+
+Steps: demo passes on the clean tree; patch applies; package builds (also with -tags verif); the existing
+suite passes with the patch; the demo fails with the patch; ./check <prop> reports VIOLATION. Prints a JSON summary.
 """
 import json, os, subprocess, sys, shutil, time
-REPO = '/repo'
 ENV = dict(os.environ, GOFLAGS='-mod=mod', GOPROXY='off', GOSUMDB='off', GOTOOLCHAIN='local')
 
-def sh(cmd, cwd=None, timeout=3000):
-    p = subprocess.run(cmd, cwd=cwd, env=ENV, stdout=subprocess.PIPE, stderr=subprocess.STDOUT, text=True, timeout=timeout)
+
+def sh(cmd, cwd=None, timeout=6000, env=None):
+    p = subprocess.run(cmd, cwd=cwd, env=env or ENV, stdout=subprocess.PIPE, stderr=subprocess.STDOUT, text=True, timeout=timeout)
     return p.returncode, p.stdout
 
-def clean():
-    sh(['git', 'checkout', '--', '.'], cwd=REPO)
-    for f in ('zz_seeded_test.go',):
-        if os.path.exists(os.path.join(REPO, f)):
-            os.remove(os.path.join(REPO, f))
 
 def main():
-    d = sys.argv[1]
-    tier = 'quick'
-    if '--tier' in sys.argv:
-        tier = sys.argv[sys.argv.index('--tier') + 1]
-    meta = json.load(open(os.path.join(d, 'meta.json')))
-    props = [meta['property']]
-    if '--props' in sys.argv:
-        props = sys.argv[sys.argv.index('--props') + 1].split(',')
-    res = dict(dir=d, property=meta['property'], summary=meta.get('summary'))
-    rc, out = sh(['git', 'status', '--short'], cwd=REPO)
-    if out.strip():
-        print('repo not clean:', out)
+    patch, demo, prop, slot = sys.argv[1:5]
+    patch, demo = os.path.abspath(patch), os.path.abspath(demo)
+    tier = sys.argv[sys.argv.index('--tier') + 1] if '--tier' in sys.argv else 'quick'
+    props = sys.argv[sys.argv.index('--props') + 1].split(',') if '--props' in sys.argv else [prop]
+    repo = '/tmp/vrepo-' + slot
+    veval = '/tmp/veval-' + slot
+    res = dict(patch=patch, property=prop, tier=tier)
+    sh(['git', '-C', '/repo', 'worktree', 'remove', '--force', repo])
+    shutil.rmtree(repo, ignore_errors=True)
+    rc, out = sh(['git', '-C', '/repo', 'worktree', 'add', '-f', '--detach', repo, 'HEAD'])
+    if rc != 0:
+        print(out)
         return 2
     try:
-        shutil.copy(os.path.join(d, 'demo_test.go'), os.path.join(REPO, 'zz_seeded_test.go'))
-        rc, out = sh(['go', 'test', '-vet=off', '-count=1', '-run', 'TestSeeded', '.'], cwd=REPO)
-        res['demo_passes_clean'] = rc == 0
-        rc, out = sh(['git', 'apply', os.path.join(os.path.abspath(d), 'patch.diff')], cwd=REPO)
+        demo_dst = os.path.join(repo, 'zz_seed_demo_test.go')
+        if '--skip-confirm' not in sys.argv:
+            shutil.copy(demo, demo_dst)
+            rc, out = sh(['go', 'test', '-vet=off', '-count=1', '-run', 'TestSeedDemo', '.'], cwd=repo)
+            res['demo_passes_clean'] = rc == 0
+            if rc != 0:
+                res['demo_clean_output'] = out[-800:]
+        rc, out = sh(['git', 'apply', patch], cwd=repo)
         res['patch_applies'] = rc == 0
         if rc != 0:
             res['error'] = out[-500:]
+            print(json.dumps(res, indent=1))
             return 1
-        rc, out = sh(['go', 'test', '-vet=off', '-count=1', '-run', 'TestSeeded', '.'], cwd=REPO)
-        res['demo_fails_mutated'] = rc != 0
-        os.remove(os.path.join(REPO, 'zz_seeded_test.go'))
-        rc, out = sh(['go', 'test', '-vet=off', '-count=1', './...'], cwd=REPO)
-        res['suite_passes_mutated'] = rc == 0
+        if '--skip-confirm' not in sys.argv:
+            rc, out = sh(['go', 'test', '-vet=off', '-count=1', '-run', 'TestSeedDemo', '.'], cwd=repo)
+            res['demo_fails_mutated'] = rc != 0
+            res['demo_output'] = out[-600:]
+            os.remove(demo_dst)
+            rc, out = sh(['go', 'build', '-tags', 'verif', './...'], cwd=repo)
+            res['builds_with_hooks'] = rc == 0
+            rc, out = sh(['go', 'test', '-vet=off', '-count=1', './...'], cwd=repo)
+            res['suite_passes_mutated'] = rc == 0
+            if rc != 0:
+                res['suite_output'] = out[-800:]
+        # evaluation copy of /verif (committed state + build output)
+        if not os.path.exists(veval):
+            sh(['rsync', '-a', '--exclude', 'work', '--exclude', 'replays', '/verif/', veval + '/'])
+        else:
+            sh(['rsync', '-a', '--delete', '--exclude', 'work', '--exclude', 'replays', '--exclude', 'lean/.lake', '--exclude', 'bin',
+                '--exclude', 'evidence', '/verif/', veval + '/'])
         res['checks'] = {}
         for p in props:
             t0 = time.time()
-            rc, out = sh(['/verif/check', p, '--tier', tier], cwd='/verif')
+            rc, out = sh([os.path.join(veval, 'check'), p, '--tier', tier], cwd=veval, env=dict(ENV, VERIF_REPO=repo))
             viol = [l for l in out.split('\n') if l.startswith('VIOLATION')]
-            res['checks'][p] = dict(rc=rc, detected=bool(viol), line=viol[0] if viol else '', wall=round(time.time() - t0),
-                                    with_input=bool(viol) and 'no-failing-input-found' not in viol[0])
+            d = dict(rc=rc, detected=bool(viol), line=viol[0] if viol else '', wall=round(time.time() - t0),
+                     with_input=bool(viol) and 'no-failing-input-found' not in viol[0], tail=out[-400:])
+            if viol:
+                path = viol[0].split('replay=')[1].split()[0]
+                try:
+                    rp = json.load(open(path))
+                    d['replay'] = {k: (v if len(json.dumps(v)) < 1500 else json.dumps(v)[:1500]) for k, v in rp.items()}
+                except Exception as e:  # noqa
+                    d['replay'] = str(e)
+            res['checks'][p] = d
     finally:
-        clean()
+        sh(['git', '-C', '/repo', 'worktree', 'remove', '--force', repo])
+        shutil.rmtree(repo, ignore_errors=True)
+        # restore the generated model of the evaluation copy to the committed one
+        sh(['git', '-C', veval, 'checkout', '--', 'lean/D128/Gen', 'harness/go.mod'])
     print(json.dumps(res, indent=1))
     return 0
+
 
 if __name__ == '__main__':
     sys.exit(main())
